@@ -13,6 +13,9 @@ CLAIMS = {
  "C04": dict(tech="TLA+ model of GROUP BY inside a batch with the aggregator's key encoder over symbol sequences (GroupBy.tla: separator-join violates the partition contract, length-prefix satisfies it) model-checked by TLC; batches over separator-like / NULL-marker / NULL / missing / >2^53 values and scalar-function keys executed on the real engine and validated by TLC against TraceBatch (one result row per distinct key tuple, each row aggregated in its own tuple's group)",
              text="TLC checks the partition contract on the model for every pair of key tuples over an alphabet containing the encoder's own separator and NULL-marker characters; on the real engine every enumerated/seeded batch is validated by TLC: exactly one result row per distinct tuple (NULL and missing collapsing), reported under the selected names, with collect(id)/count/sum equal to the rows of that tuple only. Bounded and sampled for 2-3 columns.",
              ref="DESIGN.md §4 C04", note=SEQ_NOTE + " One scalar type per grouping column; function keys via upper()/lower() on present strings."),
+ "C17": dict(tech="TLA+ model of the global window (GlobalWin.tla: rows of a group since it last fired, predicate menu, fire-and-purge) model-checked by TLC (fires exactly when the predicate first holds, conservation, no firing while false); every row sequence of the model at small bounds replayed in lock-step on the real engine; traces validated by TLC against TraceBatch (global carrier: predicate AST evaluated with lib/Agg on the rows since the last firing)",
+             text="TLC enumerates every row sequence (2 groups, values incl. NULL) up to the stated length for 8 predicates (comparisons of count/sum/avg/min/max, AND, OR, OR-of-AND precedence), 3 SELECT shapes; each runs on the real engine and TLC checks: a result exactly at the rows where the predicate holds over the rows since the group's previous result, carrying the aggregates over precisely those rows and the group column, nothing at quiescence missing. Bounded.",
+             ref="DESIGN.md §4 C17", note=SEQ_NOTE + " STATETTL unset; numeric literals; small integer / NULL / missing values."),
  "C09": dict(tech="TLA+ model of CountingWindow(N) with the key encoder (Counting.tla + lib/KeyEnc.tla) model-checked by TLC (contract per key TUPLE, encoder injectivity); every key sequence of the model at small bounds replayed in lock-step on the real engine; traces validated by TLC against the batch monitor TraceBatch",
              text="TLC enumerates all key sequences of the model (plain keys, separator-like keys, NULL/missing/empty, two-column keys) up to the stated length; each is executed on the real engine and the recorded trace is validated by TLC: i-th delivery of a key = that key's rows (i-1)N+1..iN, nothing extra, nothing missing at quiescence. Bounded; goroutine schedules beyond lock-step are not explored (one goroutine owns the state, Add blocks on a channel).",
              ref="DESIGN.md §4 C09", note=SEQ_NOTE + " STATETTL unset."),
